@@ -91,6 +91,8 @@ SigmaMid == << <<64>>, <<65>>, <<66>>, <<67>>, <<68>>, <<16, 5>>, <<17, 5, 0>>, 
 \* names only: duplicates / descending / prefix order need name,value,name,value = 4 tokens
 SigmaNames == << <<65>>, <<64>>, <<66>>, <<67>>, <<16, 5>>, <<20, 0>>, <<20, 1, 97>>, <<20, 1, 98>>, <<20, 2, 97, 97>>, <<20, 1, 0>>,
                  <<20, 1, 128>>, <<20, 2, 97, 0>>, <<21, 128, 0>> \o Rep(97, 128) >>
+\* tiny alphabet for order violations across a nested container: name,{,},name,value = 5 tokens
+SigmaTiny == << <<20, 1, 97>>, <<20, 1, 98>>, <<64>>, <<65>>, <<66>>, <<67>>, <<68>> >>
 MaxDs123 == {1, 2, 3}
 MaxDs2 == {2}
 MaxDsDeep == {1, 2, 3, 10, 255}
